@@ -26,8 +26,8 @@ def run_cfg(module, cfgname, timeout, workers=16):
     m = re.search(r"The depth of the complete state graph search is (\d+)", out)
     if m:
         res["depth"] = int(m.group(1))
-    if "is violated" in out or "Error: " in out and "Invariant" in out:
-        m = re.search(r"Invariant (\S+) is violated", out) or re.search(r"property (\S+) is violated", out)
+    if "is violated" in out or "was violated" in out or ("Error: " in out and "Invariant" in out):
+        m = re.search(r"Invariant (\S+) is violated", out) or re.search(r"property (\S+) (?:is|was) violated", out)
         res["violation"] = m.group(1) if m else "error"
         p = os.path.join(vlib.OUT, "replay", "design-%s.txt" % cfgname)
         os.makedirs(os.path.dirname(p), exist_ok=True)
@@ -91,7 +91,7 @@ def export_scripts(cfgname, num, depth, seed, out_path, fam):
     """Runs TLC in simulation mode on <cfgname> and writes one harness script per behaviour."""
     base = open(os.path.join(vlib.SPEC, cfgname + ".cfg")).read()
     sim = re.sub(r"^VIEW.*\n", "", base, flags=re.M)
-    sim = sim.replace("SPECIFICATION Spec", "SPECIFICATION SimSpec")
+    sim = sim.replace("SPECIFICATION Spec", "SPECIFICATION SimSpec").replace("RecordSched = FALSE", "RecordSched = TRUE")
     sim = re.sub(r"INVARIANTS.*", "INVARIANTS Export", sim)
     tmp = "SIM_%s_%d" % (cfgname, os.getpid())
     open(os.path.join(vlib.SPEC, tmp + ".cfg"), "w").write(sim)
